@@ -639,6 +639,9 @@ package larking
 //@   ensures [end-after-begin C18] begins == ends
 //@   assert atcall `sh.HandleRPC(ctx, &stats.End{` #1 [websocket-end-carries-the-handlers-error C18] ptr(pay(arg1), "stats.End").Error == herr
 //@   assert atcall `sh.HandleRPC(ctx, &stats.End{` #2 [end-carries-the-handlers-error C18] ptr(pay(arg1), "stats.End").Error == herr#2
+//@   assert atcall `w.Header().Set("Content-Encoding"` #1 [announced-encoding-is-negotiated-and-applied C04] arg2 == acceptEncoding && cz#2 != nil
+//@   assert atcall `w.Header().Set("Content-Encoding"` #2 [identity-only-without-a-pending-compressor C04 C05] resp == w
+//@   witness verifWitnessGzipError for identity-only-without-a-pending-compressor
 //@   witness verifWitnessPathAuthoritative
 //@   witness verifWitnessStatsEnd for end-after-begin
 //@   witness verifWitnessWSEndError for end-carries-the-handlers-error
@@ -1101,6 +1104,7 @@ package larking
 //@ func (*streamHTTP).writeMsg serves C04 partial ghost count post
 //@   requires s != nil
 //@   count ctSet `h.Set("Content-Type"`
+//@   assert atcall `h.Set("Content-Type"` [content-type-is-the-reply's C04] arg2 == contentType
 //@   ensures [content-type-set-for-first-message C04] old(s.sendCount) == 0 ==> ctSet == 1
 //@   assert atcall `codec.WriteNext(` [content-type-before-body C04] count == 0 ==> ctSet == 1
 //@   assert atcall `s.opts.writeAll(` [content-type-before-body C04] count == 0 ==> ctSet == 1
